@@ -163,95 +163,152 @@ func errDiscipline(c *Ctx, rule string, fns []*ssa.Function, floor int) {
 
 // rejectsMismatch: in a decoder, each comparison of a decoded scalar with a
 // protocol constant sends the mismatch to an error return.
-func rejectsMismatch(c *Ctx, rule string, fn *ssa.Function, min int) {
+func rejectsMismatch(c *Ctx, rule string, top *ssa.Function, min int) {
 	p := c.P
 	n := 0
-	for _, b := range fn.Blocks {
-		iff, ok := b.Instrs[len(b.Instrs)-1].(*ssa.If)
+	// the decoder itself and the error-returning module helpers it calls directly
+	fns := []*ssa.Function{top}
+	errT := types.Universe.Lookup("error").Type()
+	allInstrs(top, func(i ssa.Instruction) {
+		cc := callCommon(i)
+		if cc == nil {
+			return
+		}
+		sc := cc.StaticCallee()
+		if sc == nil || !inModule(sc) || sc.Blocks == nil || sc == top {
+			return
+		}
+		res := sc.Signature.Results()
+		if res.Len() == 0 || !types.Identical(res.At(res.Len()-1).Type(), errT) {
+			return
+		}
+		for _, f := range fns {
+			if f == sc {
+				return
+			}
+		}
+		fns = append(fns, sc)
+	})
+	// constOrConstParam: a constant, or a parameter bound to a constant at every call site
+	constOrConstParam := func(fn *ssa.Function, v ssa.Value) (string, bool) {
+		if cc, ok := v.(*ssa.Const); ok && !cc.IsNil() && cc.Value != nil {
+			return cc.Value.ExactString(), true
+		}
+		pv, ok := v.(*ssa.Parameter)
 		if !ok {
-			continue
+			return "", false
 		}
-		bo, ok := iff.Cond.(*ssa.BinOp)
-		if !ok || (bo.Op != token.NEQ && bo.Op != token.EQL) {
-			continue
+		idx := -1
+		for k, pp := range fn.Params {
+			if pp == pv {
+				idx = k
+			}
 		}
-		var k *ssa.Const
-		var other ssa.Value
-		if cc, ok := bo.Y.(*ssa.Const); ok && !cc.IsNil() {
-			k, other = cc, bo.X
-		} else if cc, ok := bo.X.(*ssa.Const); ok && !cc.IsNil() {
-			k, other = cc, bo.Y
-		}
-		if k == nil {
-			continue
-		}
-		if _, isBasic := other.Type().Underlying().(*types.Basic); !isBasic {
-			continue
-		}
-		// decoded scalar: read from the input (a call result, or a local filled in by a decoder)
-		src := strip(other)
-		for {
-			if ct, ok := src.(*ssa.ChangeType); ok {
-				src = strip(ct.X)
+		sites := 0
+		for _, e := range p.callersOf(fn) {
+			cf := e.Caller.Func
+			if cf == nil || isTestFile(p.Fset, cf.Pos()) || e.Site == nil {
 				continue
 			}
-			if cv, ok := src.(*ssa.Convert); ok {
-				src = strip(cv.X)
-				continue
+			args := e.Site.Common().Args
+			if idx < 0 || idx >= len(args) {
+				return "", false
 			}
-			break
+			if cc, ok := args[idx].(*ssa.Const); !ok || cc.IsNil() {
+				return "", false
+			}
+			sites++
 		}
-		switch x := src.(type) {
-		case *ssa.Extract:
-			if _, ok := x.Tuple.(*ssa.Call); !ok {
+		return "param:" + pv.Name(), sites > 0
+	}
+	for _, fn := range fns {
+		for _, b := range fn.Blocks {
+			iff, ok := b.Instrs[len(b.Instrs)-1].(*ssa.If)
+			if !ok {
 				continue
 			}
-		case *ssa.Call:
-		case *ssa.UnOp:
-			switch y := x.X.(type) {
-			case *ssa.Alloc:
-			case *ssa.IndexAddr:
-				// a byte of the received packet
-				if _, isParam := y.X.(*ssa.Parameter); !isParam {
+			bo, ok := iff.Cond.(*ssa.BinOp)
+			if !ok || (bo.Op != token.NEQ && bo.Op != token.EQL) {
+				continue
+			}
+			var kname string
+			var other ssa.Value
+			if s, ok := constOrConstParam(fn, bo.Y); ok {
+				kname, other = s, bo.X
+			} else if s, ok := constOrConstParam(fn, bo.X); ok {
+				kname, other = s, bo.Y
+			}
+			if other == nil {
+				continue
+			}
+			if _, isBasic := other.Type().Underlying().(*types.Basic); !isBasic {
+				continue
+			}
+			// decoded scalar: read from the input (a call result, or a local filled in by a decoder)
+			src := strip(other)
+			for {
+				if ct, ok := src.(*ssa.ChangeType); ok {
+					src = strip(ct.X)
+					continue
+				}
+				if cv, ok := src.(*ssa.Convert); ok {
+					src = strip(cv.X)
+					continue
+				}
+				break
+			}
+			switch x := src.(type) {
+			case *ssa.Extract:
+				if _, ok := x.Tuple.(*ssa.Call); !ok {
+					continue
+				}
+			case *ssa.Call:
+			case *ssa.UnOp:
+				switch y := x.X.(type) {
+				case *ssa.Alloc:
+				case *ssa.IndexAddr:
+					// a byte of the received packet
+					if _, isParam := y.X.(*ssa.Parameter); !isParam {
+						continue
+					}
+				default:
 					continue
 				}
 			default:
 				continue
 			}
-		default:
-			continue
-		}
-		n++
-		for i, s := range b.Succs {
-			mismatch := (bo.Op == token.NEQ) == (i == 0)
-			if !mismatch {
-				continue
-			}
-			good := true
-			where := ""
-			paths, complete := enumPathsAt(s, 0, nil, nil, nil, 200)
-			if !complete {
-				good, where = false, "too many paths"
-			}
-			for _, pa := range paths {
-				if pa.endWhy == "panic" {
+			n++
+			for i, s := range b.Succs {
+				mismatch := (bo.Op == token.NEQ) == (i == 0)
+				if !mismatch {
 					continue
 				}
-				if pa.endWhy != "return" {
-					good, where = false, "the mismatch arm continues decoding"
-					continue
+				good := true
+				where := ""
+				paths, complete := enumPathsAt(s, 0, nil, nil, nil, 200)
+				if !complete {
+					good, where = false, "too many paths"
 				}
-				rv := returnValues(pa.end.(*ssa.Return))
-				if len(rv) == 0 || isNilConst(rv[len(rv)-1]) {
-					good, where = false, "the mismatch arm reaches a successful return at "+p.pos(pa.end.Pos())
+				for _, pa := range paths {
+					if pa.endWhy == "panic" {
+						continue
+					}
+					if pa.endWhy != "return" {
+						good, where = false, "the mismatch arm continues decoding"
+						continue
+					}
+					rv := returnValues(pa.end.(*ssa.Return))
+					if len(rv) == 0 || isNilConst(rv[len(rv)-1]) {
+						good, where = false, "the mismatch arm reaches a successful return at "+p.pos(pa.end.Pos())
+					}
 				}
+				c.check(good, rule, fmt.Sprintf("%s/rejects-mismatch[%s]", fnName(fn), kname), iff.Pos(), "a packet whose field differs from the protocol constant is rejected with an error",
+					"a packet of the wrong type or version is not rejected ("+where+"): foreign or future-format bytes are applied as state")
 			}
-			c.check(good, rule, fmt.Sprintf("%s/rejects-mismatch[%s]", fnName(fn), k.Value.ExactString()), iff.Pos(), "a packet whose field differs from the protocol constant is rejected with an error",
-				"a packet of the wrong type or version is not rejected ("+where+"): foreign or future-format bytes are applied as state")
 		}
 	}
 	if n < min {
-		c.fail(rule, fnName(fn)+"/validates-header", fn.Pos(), fmt.Sprintf("expected at least %d comparisons of decoded header fields with protocol constants, found %d", min, n))
+		c.fail(rule, fnName(top)+"/validates-header", top.Pos(), fmt.Sprintf("expected at least %d comparisons of decoded header fields with protocol constants (in the decoder or the helpers it calls), found %d", min, n))
 	}
 }
 
